@@ -6,6 +6,7 @@ import (
 	"sort"
 
 	"google.golang.org/protobuf/proto"
+	"reduction.dev/reduction/proto/snapshotpb"
 	"verif/lib"
 )
 
@@ -136,7 +137,9 @@ func runScenario(c *lib.Ctx, sc scenario) {
 		if len(ids) == 0 {
 			return // only the seed exists
 		}
-		if cur := e.store.CurrentCheckpoint(); cur.GetId() != want {
+		var cur *snapshotpb.JobCheckpoint
+		e.watch("CurrentCheckpoint", func() { cur = e.store.CurrentCheckpoint() })
+		if cur.GetId() != want {
 			c.Fail("current-not-newest-present", e.wit(), "%s: CurrentCheckpoint().Id = %d, newest snapshot present in storage is %d (present: %v)", when, cur.GetId(), want, ids)
 		}
 	}
@@ -144,15 +147,17 @@ func runScenario(c *lib.Ctx, sc scenario) {
 		// create
 		var id uint64
 		var err error
-		switch sp.Sp {
-		case "before":
-			var created bool
-			id, created, err = e.store.CreateSavepoint(opN, srN)
-			e.logOp("CreateSavepoint -> id=%d created=%v err=%v", id, created, err)
-		default:
-			id, err = e.store.CreateCheckpoint(opN, srN)
-			e.logOp("CreateCheckpoint -> id=%d err=%v", id, err)
-		}
+		e.watch("Create*", func() {
+			switch sp.Sp {
+			case "before":
+				var created bool
+				id, created, err = e.store.CreateSavepoint(opN, srN)
+				e.logOp("CreateSavepoint -> id=%d created=%v err=%v", id, created, err)
+			default:
+				id, err = e.store.CreateCheckpoint(opN, srN)
+				e.logOp("CreateCheckpoint -> id=%d err=%v", id, err)
+			}
+		})
 		if err != nil {
 			c.Fail("create-refused", e.wit(), "checkpoint %d of the scenario could not be created although the previous one was acknowledged by every node: %v", i, err)
 		}
@@ -161,8 +166,10 @@ func runScenario(c *lib.Ctx, sc scenario) {
 		}
 		lastID = id
 		if sp.Sp == "while" {
-			sid, created, err := e.store.CreateSavepoint(opN, srN)
-			e.logOp("CreateSavepoint (while pending) -> id=%d created=%v err=%v", sid, created, err)
+			e.watch("CreateSavepoint", func() {
+				sid, created, err := e.store.CreateSavepoint(opN, srN)
+				e.logOp("CreateSavepoint (while pending) -> id=%d created=%v err=%v", sid, created, err)
+			})
 		}
 		if sp.Sp != "" {
 			c.Feat("savepoints", 1)
@@ -189,7 +196,7 @@ func runScenario(c *lib.Ctx, sc scenario) {
 			acks = append(acks, e.buildSrAck(n, id, 1))
 		}
 		for _, a := range lib.Shuffled(r, acks) {
-			e.send(a)
+			e.watch(a.String(), func() { e.send(a) })
 			e.logOp("%v -> err=%q", a, a.Err)
 		}
 		if hw != nil {
